@@ -406,6 +406,21 @@ where
         + Ord
         + FromUniformBytes<64>,
 {
+    // The verifier absorbs the committed instances of all proofs first and the
+    // plain instances of all proofs afterwards; follow the same order.
+    for instance in instances.iter() {
+        for values in instance.iter().take(nb_committed_instances) {
+            let mut poly = pk.vk.domain.empty_lagrange();
+            if values.len() > (poly.len() - (pk.vk.cs.blinding_factors() + 1)) {
+                return Err(Error::InstanceTooLarge);
+            }
+            for (poly_eval, value) in poly.iter_mut().zip(values.iter()) {
+                *poly_eval = *value;
+            }
+            transcript.common(&CS::commit_lagrange(params, &poly))?;
+        }
+    }
+
     instances
         .iter()
         .map(|instance| -> Result<InstanceSingle<F>, Error> {
@@ -429,10 +444,6 @@ where
                             transcript.common(value)?;
                         }
                         *poly_eval = *value;
-                    }
-
-                    if is_committed_instance {
-                        transcript.common(&CS::commit_lagrange(params, &poly))?;
                     }
 
                     Ok(poly)
